@@ -12,6 +12,7 @@ Close Scope Q_scope.
 
 Lemma tie_ol_jump_test : forall ae thr v, Gen.Openlist.ThresholdOpenList_jump_test ae thr v = passes ae v thr.
 Proof. intros ae thr v. unfold Gen.Openlist.ThresholdOpenList_jump_test. q_bool. Qed.
+Print Assumptions tie_ol_jump_test.
 
 Lemma tie_ol_jumping : forall cfg votes thr,
   Gen.Openlist.ThresholdOpenList_jumping (ol_accept_equal cfg) thr votes = map fst (ol_jumping cfg votes thr).
@@ -19,6 +20,7 @@ Proof.
   intros cfg votes thr. unfold Gen.Openlist.ThresholdOpenList_jumping, ol_jumping.
   apply map_filter_ext; intros [c v]; cbn [fst snd]; [reflexivity|]. q_bool.
 Qed.
+Print Assumptions tie_ol_jumping.
 
 (* the jump threshold (openlist.py L110-121): total * jump_fraction and / or the quota, the higher or the lower of the two;
    None = neither configured (the list order alone decides).  Compared up to == on the rational. *)
@@ -43,6 +45,7 @@ Proof.
     repeat match goal with |- context [qf ?a ?b] => let y := fresh "y" in set (y := qf a b) in *; clearbody y end;
     q_atoms; cbn [oq_eq]; solve [ reflexivity | lra ].
 Qed.
+Print Assumptions tie_ol_threshold.
 
 Theorem GenTie_Openlist :
   (forall ae thr v, Gen.Openlist.ThresholdOpenList_jump_test ae thr v = passes ae v thr) /\
